@@ -157,7 +157,7 @@ def run1(ctx, nonce):
         race = race + r3[:1800]
     units = sorted(gen["units"], key=lambda u: (u["ver"], u["ms"], u["mib"]))
     if ctx.quick():
-        units = [u for u in units if (u["ms"], u["mib"]) in ((30, 48), (120, 8))]
+        units = [u for u in units if (u["ms"], u["mib"]) in ((30, 24), (120, 8))]
     fix = gen["fix"]
     for lst in (hcases, race, units, fix):
         for i, c in enumerate(lst):
